@@ -50,6 +50,9 @@ func (m *SimpleModulus) UnmarshalCBOR(data []byte) error {
 	if err != nil {
 		return errs.Wrap(err)
 	}
+	if dto.Modulus == nil {
+		return ErrFailed.WithMessage("failed to create SimpleModulus")
+	}
 	m.m = dto.Modulus
 	return nil
 }
